@@ -1,5 +1,8 @@
 use crate::rc::Rc;
+#[cfg(not(betaveros_noulith_verif))]
 use std::collections::HashMap;
+#[cfg(betaveros_noulith_verif)]
+use crate::verif_hooks::HashMap;
 
 pub fn unwrap_or_clone<T: Clone>(x: Rc<T>) -> T {
     match Rc::try_unwrap(x) {
